@@ -19,7 +19,7 @@ META = {
              'equal to the sent roDelete; every post-state is re-read from str(ro): class RunningOrder, same '
              'completed flag. Signature = (phase, message kind, outcome) + transition signatures.'),
     'workers': {'quick': 12, 'thorough': 16},
-    'watchdog': {'quick': 300, 'thorough': 1800},
+    'watchdog': {'quick': 600, 'thorough': 3600},
 }
 
 
